@@ -152,6 +152,44 @@ func schedCase(col *Collector, focus string, p *schedPlan, tag string) {
 	if !hasNested(c) && !cancelledRun {
 		cs.Line = c.line(relToInts(rel))
 	}
+	if hasNested(c) && !cancelledRun && !c.shared {
+		// nested pipelines: the final statuses and run counts of both levels against the model's composition
+		deps := func(c *schedCfg) string {
+			ds := make([]string, c.n)
+			for i, d := range c.deps {
+				ds[i] = "-"
+				if len(d) > 0 {
+					ds[i] = joinInts(d, ",")
+				}
+			}
+			return strings.Join(ds, ";")
+		}
+		line := fmt.Sprintf("nested n=%d deps=%s allow=%s cond=%s ok=%s", c.n, deps(c), bits(c.allow), string(c.cond), bits(c.ok))
+		// a nested stage never enters the runner itself: it counts as started once when it ended done or failed
+		runs := append([]int(nil), obs.runs...)
+		for i, nc := range c.nested {
+			if nc != nil && (obs.status[i] == stDone || obs.status[i] == stError) {
+				runs[i] = 1
+			}
+		}
+		impl := fmt.Sprintf("final=%s/%s|err=%d|", joinInts(obs.status, ","), joinInts(runs, ","), map[bool]int{true: 1, false: 0}[obs.err])
+		var ins []string
+		simple := true
+		for i, nc := range c.nested {
+			if nc == nil {
+				continue
+			}
+			if hasNested(nc) || nc.shared {
+				simple = false
+			}
+			line += fmt.Sprintf(" in=%d:%d:%s:%s:%s:%s", i, nc.n, deps(nc), bits(nc.allow), string(nc.cond), bits(nc.ok))
+			ins = append(ins, fmt.Sprintf("in%d=%s/%s", i, joinInts(obs.inner[i][0], ","), joinInts(obs.inner[i][1], ",")))
+		}
+		if simple {
+			cs.Line = line
+			cs.Impl = impl + strings.Join(ins, "|")
+		}
+	}
 	nEdges := 0
 	for _, d := range c.deps {
 		nEdges += len(d)
